@@ -53,20 +53,40 @@ def runOps {σ : Type} (f : σ → List String → σ × String) (s : σ) (ops :
   let (_, obs) := ops.foldl (fun (acc : σ × List String) o => let r := f acc.1 o; (r.1, r.2 :: acc.2)) (s, [])
   ";".intercalate obs.reverse
 
-/-! ### ArrayList -/
-structure ALW where
+/-! ### ArrayList (two lists `a`, `b`; an op token `b.xxx` addresses `b`, a bare `xxx` addresses `a`) -/
+structure ALSide where
   s : AL.State Int
   held : List Nat
 
-def alObs (N : Nat) (w : ALW) (res : String) : String :=
-  let heldS := w.held.map fun p => if p == AL.endPos w.s then "E" else showO (AL.elementAt N w.s p)
-  s!"{w.s.size} {strList ((AL.view N w.s).map showO)} {res} {strList heldS}"
+structure ALW where
+  a : ALSide
+  b : ALSide
 
-def alStep (N : Nat) (w : ALW) (o : List String) : ALW × String :=
-  let skip := (w, "skip")
-  let done (w' : ALW) (res : String) := (w', alObs N w' res)
-  let run (op : AL.Op Int) : AL.State Int := AL.step N 0 w.s op
+def alSideObs (N : Nat) (w : ALSide) : String :=
+  let heldS := w.held.map fun p => if p == AL.endPos w.s then "E" else showO (AL.elementAt N w.s p)
+  s!"{w.s.size} {strList ((AL.view N w.s).map showO)} {strList heldS}"
+
+def alObs (N : Nat) (w : ALW) (res : String) : String := s!"{alSideObs N w.a} | {alSideObs N w.b} {res}"
+
+/-- split the optional side prefix off the op token -/
+def sideOf (tok : String) : Bool × String :=
+  match tok.toList with
+  | 'b' :: '.' :: r => (false, String.ofList r)
+  | _ => (true, tok)
+
+def alStep (N : Nat) (w0 : ALW) (o : List String) : ALW × String :=
+  let skip := (w0, "skip")
   match o with
+  | [] => skip
+  | tok :: args =>
+  let (isA, opn) := sideOf tok
+  let w := if isA then w0.a else w0.b
+  let other := if isA then w0.b else w0.a
+  let done (w' : ALSide) (res : String) : ALW × String :=
+    let W : ALW := if isA then { w0 with a := w' } else { w0 with b := w' }
+    (W, alObs N W res)
+  let run (op : AL.Op Int) : AL.State Int := AL.step N 0 w.s op
+  match opn :: args with
   | ["push", x] => match int? x with
     | some x => done { w with s := run (.push x) } "-"
     | none => skip
@@ -95,6 +115,9 @@ def alStep (N : Nat) (w : ALW) (o : List String) : ALW × String :=
   | ["idx", k, j] => match nat? k, nat? j with
     | some k, some j => if k + j < w.s.size then done w (showO (AL.elementAt N w.s (j + (w.s.start + k)))) else skip
     | _, _ => skip
+  | ["asg"] => done ⟨AL.assign w.s (some other.s), []⟩ "-"     -- target = other
+  | ["cc"] => done ⟨AL.copy other.s, []⟩ "-"                   -- target constructed anew as a copy of other
+  | ["sasg"] => done { w with s := AL.assign w.s none } "-"    -- target = target: iterators stay valid
   | _ => skip
 
 /-! ### SLList -/
@@ -139,6 +162,9 @@ def slStep (w : SLW) (o : List String) : SLW × String :=
       | "cc", [] =>
         let c := SL.copy me.s
         (w, slObs w (showList (SL.items c) ++ tf (SL.eq c me.s)))
+      | "ccv", [] =>
+        let c : SL.State Int := SL.copyConv (fun x => x) me.s     -- SLList<long> from SLList<int>
+        (w, slObs w (showList (SL.items c) ++ toString c.size))
       | "mb", [] => doOp .mBegin
       | "me", [] => doOp .mEnd
       | "m+", [] => doOp .mInc
@@ -198,6 +224,7 @@ def rvStep (n : Nat) (w : RVW) (o : List String) : RVW × String :=
         let r := RV.swap me other
         let w' : RVW := if isA then ⟨r.1, r.2⟩ else ⟨r.2, r.1⟩
         (w', rvObs w' "-")
+      | "asg", [] => doOp (.assignFrom other)
       | "ctor", [] => fin (RV.empty n 0)
       | "ctorc", [k] => match nat? k with
         | some k => if k ≤ n then fin ((List.range k).foldl (fun s i => RV.set s i 0) (RV.ofCount n 0 k)) else skip
@@ -229,6 +256,14 @@ def bvStep (B : Nat) (v : BV.Bits) (o : List String) : BV.Bits × String :=
   | ["new", n] => match cnt n 64 with | some n => fin (BV.mk B n) | none => skip
   | ["newv", n, b] => match cnt n 64, flag? b with | some n, some b => fin (BV.mk B n b) | _, _ => skip
   | ["resize", n, b] => match cnt n 64, flag? b with | some n, some b => doOp (.resize n b) | _, _ => skip
+  | ["fromv", x] => match x.toList with
+    | 'b' :: cs =>
+      if cs.length ≤ 300 && cs.all (fun c => c == '0' || c == '1') then
+        match BV.ofVector B (cs.map (· == '1')) with
+        | some v' => fin v'
+        | none => fin v "ERR:Range"
+      else skip
+    | _ => skip
   | ["clear"] => doOp .clear
   | ["setall"] => doOp (.assignAll true)
   | ["unsetall"] => doOp (.assignAll false)
@@ -269,24 +304,38 @@ abbrev LS := LRU.State Int Int
 
 def kv (e : Int × Int) : String := s!"{e.1}:{e.2}"
 
-def lruObs (s : LS) (res : String) : String :=
+def key? (s : String) : Option Int := (nat? s).bind fun k => if k < 1000 then some (k : Int) else none
+
+structure LRUW where
+  a : LS
+  b : LS
+
+def lruSideObs (s : LS) : String :=
   let fr := if LRU.size s == 0 then "-" else showO (LRU.front s)
   let bk := if LRU.size s == 0 then "-" else showO (LRU.back s)
   let finds := (List.range 8).map fun (k : Nat) => match LRU.find s (Int.ofNat k) with | some e => toString e.2 | none => "-"
-  s!"{LRU.size s} {fr} {bk} {strList ((LRU.abs s).map kv)} {strList finds} {res}"
+  s!"{LRU.size s} {fr} {bk} {strList ((LRU.abs s).map kv)} {strList finds}"
 
-def key? (s : String) : Option Int := (nat? s).bind fun k => if k < 1000 then some (k : Int) else none
+def lruObs2 (w : LRUW) (res : String) : String := s!"{lruSideObs w.a} | {lruSideObs w.b} {res}"
 
-def lruStep (s : LS) (o : List String) : LS × String :=
-  let skip := (s, "skip")
-  let fin (s' : LS) (res : String := "-") : LS × String := (s', lruObs s' res)
-  let doOp (op : LRU.Op Int Int) (res : LS → String := fun _ => "-") : LS × String :=
+def lruStep (w0 : LRUW) (o : List String) : LRUW × String :=
+  let skip := (w0, "skip")
+  match o with
+  | [] => skip
+  | tok :: args =>
+  let (isA, opn) := sideOf tok
+  let s := if isA then w0.a else w0.b
+  let other := if isA then w0.b else w0.a
+  let fin (s' : LS) (res : String := "-") : LRUW × String :=
+    let W : LRUW := if isA then { w0 with a := s' } else { w0 with b := s' }
+    (W, lruObs2 W res)
+  let doOp (op : LRU.Op Int Int) (res : LS → String := fun _ => "-") : LRUW × String :=
     if op.ok s then let s' := LRU.step s op; fin s' (res s') else skip
-  let touchOp (k : Int) : LS × String :=
+  let touchOp (k : Int) : LRUW × String :=
     match LRU.touch s k with
     | some r => fin (LRU.step s (.touch k)) (showO r.2)
     | none => fin (LRU.step s (.touch k)) "ERR:Range"
-  match o with
+  match opn :: args with
   | ["ins", k, v] => match key? k, int? v with
     | some k, some v => doOp (.insert k v) (fun s' => showO (LRU.front s'))
     | _, _ => skip
@@ -299,6 +348,9 @@ def lruStep (s : LS) (o : List String) : LS × String :=
   | ["popb"] => doOp .popBack
   | ["resize", n] => match nat? n with | some n => doOp (.resize n) | none => skip
   | ["clear"] => doOp .clear
+  | ["asg"] => fin (LRU.assign s (some other))     -- target = other
+  | ["cc"] => fin (LRU.copy other)                 -- target constructed anew as a copy of other
+  | ["sasg"] => fin (LRU.assign s none)            -- target = target
   | _ => skip
 
 def handle (line : String) : String :=
@@ -307,7 +359,7 @@ def handle (line : String) : String :=
   | ["al", p] => match int? p with
     | some p =>
       if p == 0 || p == 1 || p == 2 || p == 3 || p == 4 || p == 7 then
-        runOps (alStep (AL.chunkSize p)) ⟨AL.empty, []⟩ ops
+        runOps (alStep (AL.chunkSize p)) ⟨⟨AL.empty, []⟩, ⟨AL.empty, []⟩⟩ ops
       else "bad-op"
     | none => "bad-op"
   | ["sl"] => runOps slStep ⟨⟨SL.empty, none⟩, ⟨SL.empty, none⟩⟩ ops
@@ -317,7 +369,7 @@ def handle (line : String) : String :=
   | ["bv", p] => match nat? p with
     | some B => if B == 1 || B == 3 || B == 8 || B == 33 then runOps (bvStep B) [] ops else "bad-op"
     | none => "bad-op"
-  | ["lru"] => runOps lruStep LRU.empty ops
+  | ["lru"] => runOps lruStep ⟨LRU.empty, LRU.empty⟩ ops
   | _ => "bad-op"
 
 end C11Drv
